@@ -14,6 +14,8 @@ type ifaceHandler func(x *Exec, fr *Frame, st *State, site ssa.Instruction, recv
 
 var stdHandlers map[string]stdHandler
 var ifaceHandlers = map[string]ifaceHandler{
+	"(net.Conn).RemoteAddr":   hNonNilResult("(net.Conn).RemoteAddr"),
+	"(net.Listener).Addr":     hNonNilResult("(net.Listener).Addr"),
 	"(context.Context).Value": hCtxValue,
 	"(error).Error":           hErrorString,
 	"(fmt.Stringer).String":   hStringerString,
@@ -92,6 +94,9 @@ func init() {
 		"context.WithValue":        hCtxWithValue,
 		"slices.Contains":          hSlicesContains,
 		"errors.Is":                hErrorsIs,
+		"errors.As":                hErrorsAs,
+		"(*sync.WaitGroup).Done":   hGhostCount("wgDone"),
+		"(*sync.WaitGroup).Add":    hGhostCount("wgAdd"),
 		"(*sync.Mutex).Lock":       hMutex(1),
 		"(*sync.Mutex).Unlock":     hMutex(-1),
 		"crypto/elliptic.P224":     hNonNilIface("crypto/elliptic.P224"),
@@ -340,4 +345,62 @@ func hMutex(delta int64) stdHandler {
 		}
 		k(st, Val{T: types.NewTuple()}, false)
 	}
+}
+
+// hGhostCount: the call increments the named ghost counter when it is declared; no other effect.
+func hGhostCount(name string) stdHandler {
+	return func(x *Exec, fr *Frame, st *State, site ssa.Instruction, callee *ssa.Function, args []Val, k Kont) {
+		x.assumeNote("assumed contract " + callee.String() + ": does not panic here; counted in ghost " + name)
+		if g, ok := st.ghost[name]; ok {
+			st.ghost[name] = Val{T: g.T, C: []*Term{BVBin("bvadd", g.C[0], BVConst(1, g.C[0].Sort.Width))}}
+		}
+		k(st, Val{T: types.NewTuple()}, false)
+	}
+}
+
+// hNonNilResult: an external interface method returning a non-nil interface value, no side effect.
+func hNonNilResult(name string) ifaceHandler {
+	return func(x *Exec, fr *Frame, st *State, site ssa.Instruction, recv Val, args []Val, k Kont) {
+		x.assumeNote("assumed contract " + name + ": returns a non-nil value, no side effect")
+		var sig *types.Signature
+		if c, ok := site.(ssa.CallInstruction); ok {
+			sig = c.Common().Signature()
+		}
+		res := freshVal(resultType(sig), "addr")
+		x.assumeWF(st, res)
+		st.assume(Not(Eq(res.C[0], IntConst(0))))
+		k(st, res, false)
+	}
+}
+
+// errors.As(err, target): when err's dynamic type is exactly the target's element type the value is copied and
+// true is returned; otherwise (wrapped errors) the outcome is unconstrained and the target is havocked.
+func hErrorsAs(x *Exec, fr *Frame, st *State, site ssa.Instruction, callee *ssa.Function, args []Val, k Kont) {
+	x.assumeNote("assumed contract errors.As: copies err into *target and returns true when err's dynamic type is the target's element type; otherwise any outcome, writing only *target")
+	err, target := args[0], args[1]
+	res := FreshVar("errors.as", BoolSort)
+	if target.C[0].Op == "intconst" {
+		if pt, ok := typeByID(int(target.C[0].Val.Int64())).(*types.Pointer); ok {
+			et := pt.Elem()
+			ptr := x.unbox(st, target, pt)
+			lv := derefPtr(ptr)
+			same := Eq(err.C[0], IntConst(int64(typeID(et))))
+			var val Val
+			if _, isIface := et.Underlying().(*types.Interface); isIface {
+				val = Val{T: et, C: err.C}
+			} else {
+				val = x.unbox(st, err, et)
+			}
+			hv := freshVal(et, "as")
+			x.assumeWF(st, hv)
+			nv := Val{T: et}
+			for i := range val.C {
+				nv.C = append(nv.C, Ite(same, val.C[i], hv.C[i]))
+			}
+			x.checkedStore(fr, st, lv, nv, site.Pos())
+			st.assume(Implies(same, res))
+			st.assume(Implies(Eq(err.C[0], IntConst(0)), Not(res)))
+		}
+	}
+	k(st, Val{T: types.Typ[types.Bool], C: []*Term{res}}, false)
 }
